@@ -29,6 +29,8 @@ P_PROGS = {
     'aw_aw': [('disp', '{cb}', 'C', 'await'), ('disp', '{cb}', 'C2', 'await')],
     'ff_aw': [('disp', '{cb}', 'C', 'ff'), ('disp', '{cb}', 'C2', 'await')],
     'tmo_aw': [('await_tmo', '{cb}', 'C', 0.5), ('pause',)],
+    'aw_then_ff': [('try_await', '{cb}', 'C', 'await'), ('disp', '{cb}', 'C2', 'ff'), ('pause',)],
+    'pause_raise_tmo': [('pause',), ('raise', 'TimeoutError')],
 }
 C_PROGS = {
     'ret': [('ret', 2)],
@@ -38,14 +40,16 @@ C_PROGS = {
     'g_ff': [('disp', '{cb}', 'G', 'ff'), ('pause',)],
     'pause_pause': [('pause',), ('pause',)],
 }
-QUICK_P1 = ['pause', 'ff_pause', 'aw', 'aw_pause', 'late', 'pause_aw']
-QUICK_P2 = [None, 'pause', 'aw', 'pause_raise']
-QUICK_C1 = ['ret', 'pause', 'g_aw', 'g_ff']
+QUICK_P1 = ['pause', 'ff_pause', 'aw', 'aw_pause', 'late', 'pause_aw', 'aw_then_ff']
+QUICK_P2 = [None, 'pause', 'aw', 'pause_raise', 'pause_raise_tmo']
+QUICK_C1 = ['ret', 'pause', 'g_aw', 'g_ff', 'raise']
 QUICK_C2 = [None, 'pause']
 
 
 def _subst(prog, cb):
-    return [tuple(cb if x == '{cb}' else x for x in op) for op in prog]
+    body = [tuple(cb if x == '{cb}' else x for x in op) for op in prog]
+    tail = [] if (body and body[-1][0] in ('ret', 'raise')) else [('bus?',)]
+    return [('bus?',)] + body[:-1] + ([('bus?',)] if body and body[-1][0] in ('ret', 'raise') else []) + body[-1:] + tail
 
 
 def uses_child(p):
@@ -56,7 +60,7 @@ def scenarios(tier, *, timeouts=(None,), allow_raise=True, allow_tmo_await=True,
     """yields (sid, scn, meta).  meta: dict(cb, par_a, par_b, fwd, p1, p2, c1, c2, tp)"""
     deep = tier == 'thorough'
     p1s = list(P_PROGS) if deep else QUICK_P1
-    p2s = [None, 'pause', 'aw', 'pause_raise', 'ff_pause', 'pause_aw', 'raise', 'tmo_aw'] if deep else QUICK_P2
+    p2s = [None, 'pause', 'aw', 'pause_raise', 'pause_raise_tmo', 'ff_pause', 'pause_aw', 'raise', 'tmo_aw'] if deep else QUICK_P2
     c1s = list(C_PROGS) if deep else QUICK_C1
     c2s = [None, 'pause', 'raise'] if deep else QUICK_C2
     configs = []
@@ -80,6 +84,8 @@ def scenarios(tier, *, timeouts=(None,), allow_raise=True, allow_tmo_await=True,
         if p2 is not None and not uses_child(p1) and not uses_child(p2):
             continue  # two handlers that never dispatch: nothing the hand-made families do not already have
         child = uses_child(p1) or uses_child(p2)
+        if tp is not None and not deep and (not child or p2 in ('pause_raise_tmo', 'pause')):
+            continue  # quick tier: the time-out slices only where a child is involved
         if not child and (cb == 'B' and not fwd):
             continue
         if deep and p2 is not None and p1 > p2 and not par_a:
@@ -108,7 +114,7 @@ def scenarios(tier, *, timeouts=(None,), allow_raise=True, allow_tmo_await=True,
             names = ['A', 'B'] if has_b else ['A']
             for b in names:
                 hs.append(dict(bus=b, pat='X', name='hx' + b, prog=[('ret', 0)]))
-            popt = {} if tp is None else {'timeout': tp}
+            popt = {} if tp is None else {'timeout': None if tp == 'none' else tp}
             main = [('disp', 'A', 'P', 'ff', popt), ('disp', 'A', 'X', 'ff')] + ([('disp', 'B', 'X2', 'ff')] if has_b else [])
             actors = []
             if racing == 'always' or (racing == 'thorough' and deep):
